@@ -25,14 +25,19 @@
    (C08_no_fault_events, C08_events_completed), with the client's side stated by the
    discipline of LifeSpecEv.v: the same rules, but the destruction of a window takes effect when it
    happens (a window released inside its own handler lives until the dispatch frame lets go), which the
-   checker reads off the library's frame references recorded in the trace.  Still open: (b) for the predictive
-   checker of LifeSpec.v that the oracle of the check uses (tested on every case, not proved).  Everything else is at full strength: any number of windows, any
+   checker reads off the library's frame references recorded in the trace; and (c) -- C08_no_fault, C08_all_released --
+   in exactly the form above for ALL those histories, with the predictive checker of LifeSpec.v that the oracle of the
+   check uses: LifeNorm.v proves that the predictive state of the client's calls is the normal form of the observed state
+   (every window without a client reference destroyed at once, whatever frames hold it), that the library's frame
+   references are invisible to it, and that the dispatch functions never make the observing discipline reject anything
+   but a call of the client (C08_bridge).  Not covered by any theorem: DESTROY handlers that make calls (variant fixedh of
+   the model, compared with the library on every case).  Everything else is at full strength: any number of windows, any
    depth, any order of ref/unref/close, any number of pending restack requests, any fuel (running
    out of fuel is never a normal-looking value; that enough fuel exists is not proved). *)
 From Coq Require Import ZArith List Bool PArith.
 From Tickit Require Import LifeDefs LifeLemmas LifeInv LifeClose LifeQueue LifeDestroy LifeFate LifeSpec LifeProofs LifeAgree LifeWitness LifePenDefs LifePen.
 From Tickit Require BindDefs LifeBindDefs LifeBindSim LifeBindSafe.
-From Tickit Require Import LifeSpecEv LifeAgreeEv LifeEvents LifeFuel LifeBridge.
+From Tickit Require Import LifeSpecEv LifeAgreeEv LifeEvents LifeFuel LifeBridge LifeNorm.
 Import ListNotations.
 Local Open Scope Z_scope.
 
@@ -161,6 +166,36 @@ Theorem C08_events_nonvacuous : exists h,
   (6 <= length (filter (fun o => match o with OFrameRef _ => true | _ => false end) (tr h)))%nat.
 Proof. exact events_nonvacuous. Qed.
 Print Assumptions C08_events_nonvacuous.
+
+(* THE FULL STATEMENT.  Any history (events of all five kinds, handlers making any calls at any depth), any fuel: if the
+   model faults, the calls that were executed -- the script's and the handlers', [calls hf] -- are not those of a
+   well-formed client in the sense of the heap-independent, predictive discipline of LifeSpec.v, the oracle of the check *)
+Theorem C08_no_fault : forall fuel l f step hf,
+  run_script fixed fuel l = VFault f step hf -> wf_client (calls hf) = false.
+Proof. exact full_no_fault. Qed.
+Print Assumptions C08_no_fault.
+
+(* ... and a run that completes ends in a heap that satisfies the invariant; once the discipline says that every reference
+   has been dropped, nothing is allocated *)
+Theorem C08_all_released : forall fuel l h gp,
+  run_script fixed fuel l = VOk h -> gcheck g0 (calls h) = Some gp ->
+  hinv [] h /\ (all_dropped gp = true -> heap_empty h = true).
+Proof. exact full_all_released. Qed.
+Print Assumptions C08_all_released.
+
+(* the bridge between the disciplines WITH frame references: if the observing discipline accepts a prefix of a trace and
+   then rejects a call of the client, the predictive discipline rejects the client's calls ... *)
+Theorem C08_bridge : forall l1 o l2 g,
+  echeck e0 l1 = Some g -> estep g o = None -> is_client o = true ->
+  wf_client (filter is_client (l1 ++ o :: l2)) = false.
+Proof. exact bridge. Qed.
+Print Assumptions C08_bridge.
+
+(* ... and on a trace both accept, the predictive state is the normal form of the observed one *)
+Theorem C08_bridge_normal_form : forall l g gp,
+  echeck e0 l = Some g -> gcheck g0 (filter is_client l) = Some gp -> gp = norm g /\ einv g.
+Proof. exact bridge_accept. Qed.
+Print Assumptions C08_bridge_normal_form.
 
 (* the two disciplines -- destruction predicted at the client's last unref (LifeSpec.v, the oracle of the check) and
    destruction observed when the last reference of either kind goes (LifeSpecEv.v) -- accept the same clients on every
